@@ -14,6 +14,8 @@ import (
 	"strconv"
 	"sync"
 	"testing"
+
+	_ "pgregory.net/rapid" // registers the -rapid.* flags in every harness binary
 )
 
 // Recorder collects what a check actually explored. One per process; flushed by Main.
